@@ -94,6 +94,9 @@ type Exec struct {
 	exitCode      *int
 	exitExpect    *int
 	allocLimit    int64
+	poolPuts      int
+	poolGets      int
+	trackRelease  bool
 	atExit        Value
 	schedState    *sched
 	floatCalls    []floatCall
@@ -161,11 +164,7 @@ func (x *Exec) noteFunc(fn *ssa.Function) {
 }
 func (x *Exec) noteStub(name string) { x.h.Stubs[name]++ }
 
-func (x *Exec) noteRead(p *Value) {
-	if why, ok := x.released[p]; ok {
-		x.violate("assert", "use after release: load from object returned to pool ("+why+")", x.posOf(x.curFrame().curInstr))
-	}
-}
+func (x *Exec) noteRead(p *Value) {}
 func (x *Exec) noteWrite(p *Value) {
 	if x.trackWrites {
 		x.writeLog = append(x.writeLog, p)
@@ -587,6 +586,8 @@ func (x *Exec) runPath(fn *ssa.Function) {
 	x.exitCode = nil
 	x.exitExpect = nil
 	x.allocLimit = 0
+	x.poolPuts, x.poolGets = 0, 0
+	x.trackRelease = false
 	x.atExit = nil
 	x.threads = nil
 	x.schedState = nil
